@@ -92,6 +92,11 @@ NOT_APPLICABLE = {
 }
 
 PENDING = {}
+
+
+def main():
+    checks = []
+    claimed = {k: v for k, v in CLAIMED.items() if os.path.exists(os.path.join(VERIF, 'rules', k.lower() + '.py'))}
     pending = {k: 'rule module under construction (see DESIGN.md section 4); not claimed until its check exists'
                for k in CLAIMED if k not in claimed}
     for pid, (tech, text, note, ref) in sorted(claimed.items()):
